@@ -265,7 +265,7 @@ def run_record_cases(rng, res, n):
             if tool == "run":
                 variant = rng.choice(["ok", "ok", "failing_command", "no_such_command", "missing_key", "bad_metadata_dir", "timeout",
                                       "no_command", "no_command_flag", "two_keys", "no_key", "legacy_key",
-                                      "empty_signing_key", "empty_key", "empty_gpg"])
+                                      "empty_signing_key", "empty_key", "empty_gpg", "gpg_and_signing_key", "gpg_flag_and_signing_key"])
                 key = k
                 argv = ["-n", "st", "-m", ".", "-p", "."]
                 keyargs = ["--signing-key", priv_path(k)]
@@ -289,6 +289,16 @@ def run_record_cases(rng, res, n):
                     keyargs += ["--key", priv_path(rsa)]; outcome = "usage"
                 elif variant == "no_key":
                     keyargs = []; outcome = "usage"
+                elif variant in ("gpg_and_signing_key", "gpg_flag_and_signing_key"):
+                    # two ways of signing asked for at once (a gpg key and a key file): exactly one is allowed - the tool
+                    # must not pick one silently
+                    if variant == "gpg_and_signing_key" and W.gpg_available():
+                        g = W.gpg_key("no_sub")
+                        extra_k = ["--gpg", g.keyid, "--gpg-home", g.gpg_home]
+                    else:
+                        extra_k = ["--gpg"]
+                    keyargs = (keyargs + extra_k) if rng.random() < 0.5 else (extra_k + keyargs)
+                    outcome = "usage"
                 elif variant == "legacy_key":
                     keyargs = ["--key", priv_path(rsa)]; key = rsa
                 elif variant in ("empty_signing_key", "empty_key", "empty_gpg"):
@@ -309,12 +319,14 @@ def run_record_cases(rng, res, n):
                        argv=argv + keyargs + cmd)
             elif tool == "record":
                 variant = rng.choice(["ok", "ok", "stop_without_start", "missing_key", "two_keys", "bad_subcommand",
-                                      "empty_signing_key", "empty_key", "empty_gpg"])
+                                      "empty_signing_key", "empty_key", "empty_gpg", "gpg_and_signing_key"])
                 keyargs = ["--signing-key", priv_path(k)]
                 if variant.startswith("empty_"):
                     keyargs = ["--" + variant[len("empty_"):].replace("_", "-"), ""]
                 if variant == "two_keys":
                     keyargs += ["--key", priv_path(rsa)]
+                if variant == "gpg_and_signing_key":
+                    keyargs = ["--gpg"] + keyargs if rng.random() < 0.5 else keyargs + ["--gpg"]
                 if variant == "missing_key":
                     keyargs = ["--signing-key", os.path.join(d, "nope.pem")]
                 pre = os.path.join(d, ".st.%s.link-unfinished" % k.keyid[:8])
@@ -326,7 +338,7 @@ def run_record_cases(rng, res, n):
                 if variant != "stop_without_start":
                     av = ["start", "-n", "st", "-m", "."] + keyargs + (["--use-dsse"] if dsse else [])
                     st, _o, _e = cli.run_main("in_toto_record", av)
-                    out = {"ok": "success", "missing_key": "fail", "two_keys": "usage"}.get(variant, "usage")
+                    out = {"ok": "success", "missing_key": "fail", "two_keys": "usage", "gpg_and_signing_key": "usage"}.get(variant, "usage")
                     record(res, "record_start", {"variant": variant, "dsse": dsse, "key": k.kind}, st, out, expect_file=pre, argv=av)
                 open("out.txt", "w").write("o")
                 av = ["stop", "-n", "st", "-p", "."] + keyargs
